@@ -234,72 +234,122 @@ pub fn wire_verdict(wire: &[(usize, Bytes)]) -> WireVerdict {
     WireVerdict { text, fails }
 }
 
-/// ops tokens + implementation line for one endpoint's trace (stream `txw`) and the oracle failures
+/// ops tokens + implementation line for one endpoint's trace (stream `txw`) and the oracle failures.
+/// The harness keeps its own books, written from the property text and independent of the code's
+/// `flight_size`: DATA chunks seen going out and not acknowledged by any SACK seen coming in.
 pub fn txw_lines(side: usize, c: &Case, o: &Outcome) -> (String, String, Vec<(String, String)>) {
     let mut toks: Vec<String> = c.chans[side].iter().map(|ch| format!("mp,{},{}", ch.id, ch.max_payload.unwrap_or(1200))).collect();
     let nmp = toks.len();
     let mut outs = vec![];
-    let mut fails = vec![];
-    let mut rwnd: u64 = 262_144;
-    let mut cum_acked: Option<u32> = None;
+    let mut fails: Vec<(String, String)> = vec![];
+    let mut code_rwnd: u64 = 262_144;          // what the code's peer_rwnd holds: the last a_rwnd received
+    let mut best: (Option<u32>, u64) = (None, 262_144); // serially newest cumulative TSN processed and its a_rwnd
     let mut next: Option<u32> = None;
-    let mut rexmits = 0u64;
+    let mut unacked: Vec<(u32, u64, bool)> = vec![];
+    let mut queued: std::collections::VecDeque<usize> = Default::default(); // payload sizes in the outbound queue
+    let (mut ever_sent, mut owes_sack) = (false, false);
+    let mut free_sacks = 0u32;
+    let mut after_t3 = false;
+    let (mut rexmits, mut quiet_tx, mut max_over) = (0u64, 0u64, 0u64);
     let mut viol: Option<String> = None;
+    let who = ["A", "B"][side];
+    let mps_of = |chan: u64| c.chans[side].iter().find(|ch| ch.id as u64 == chan).map(|ch| ch.max_payload.unwrap_or(1200).min(1172)).unwrap_or(1172);
     for ev in &o.traces[side] {
         let idx = toks.len() - nmp;
+        let idle = ever_sent && unacked.is_empty() && queued.is_empty();
         match ev {
             hook::Ev::Mark("loop", _) => toks.push("L".into()),
-            hook::Ev::Mark("t3", _) => toks.push("3".into()),
+            hook::Ev::Mark("t3", _) => { toks.push("3".into()); after_t3 = !unacked.is_empty(); }
             hook::Ev::Mark("tx_window", v) => {
                 toks.push(format!("W,{},{},{},{},{}", v[0], v[1], v[2], v[3], v[4]));
+                // correspondence only: the code's own window, reported as the code computed it
                 outs.push(format!("w{}", v[4]));
-                if v[2] != rwnd && viol.is_none() {
-                    viol = Some(format!("stale-rwnd:{}!={rwnd}@{idx}", v[2]));
-                    fails.push(("window:advertised-window-in-use-is-not-the-last-received".to_string(), format!("transmit uses rwnd {} but the last received a_rwnd was {rwnd}", v[2])));
-                }
+                let _ = code_rwnd;
             }
             hook::Ev::Mark("tx_new", v) => {
                 toks.push(format!("N,{},{},{},{}", v[0], v[1], v[2], v[3]));
                 outs.push(format!("n{},{},{}", v[1], v[2], v[3]));
-                if v[0] == 0 && v[1] > 0 { fails.push(("window:new-data-with-no-available-window".into(), format!("available 0, {} chunks sent", v[1]))); }
-                if v[2] > v[0] + 1188 { fails.push(("window:overshoot-beyond-one-chunk".into(), format!("available {}, dequeued {} bytes", v[0], v[2]))); }
+                for _ in 0..v[1] { queued.pop_front(); }
             }
-            hook::Ev::Mark("enqueue", v) => toks.push(format!("E,{},{},{}", v[0], v[1], v[2])),
+            hook::Ev::Mark("enqueue", v) => {
+                toks.push(format!("E,{},{},{}", v[0], v[1], v[2]));
+                let (mps, len) = (mps_of(v[0]), v[2] as usize);
+                if len == 0 { queued.push_back(0); } else { let mut r = len; while r > 0 { let n = r.min(mps); queued.push_back(n); r -= n; } }
+            }
             hook::Ev::Mark(_, _) => {}
             hook::Ev::Rx(p) => {
                 toks.push(format!("R,{}", hex(p)));
+                free_sacks = 0;
                 let mut z = p.to_vec();
                 if z.len() >= 12 { z[8..12].copy_from_slice(&[0; 4]); }
                 if p.len() >= 12 && crc32c::crc32c(&z).to_le_bytes() == p[8..12] {
                     for (t, _f, v) in chunks_of(p) {
-                        if (t == 1 || t == 2) && v.len() >= 16 { rwnd = u32::from_be_bytes([v[4], v[5], v[6], v[7]]) as u64; }
+                        if (t == 1 || t == 2) && v.len() >= 16 {
+                            code_rwnd = u32::from_be_bytes([v[4], v[5], v[6], v[7]]) as u64;
+                            if best.0.is_none() { best.1 = code_rwnd; }
+                        }
+                        if t == 0 || t == 192 { owes_sack = true; }
                         if t == 3 && v.len() >= 12 {
                             let cum = u32::from_be_bytes([v[0], v[1], v[2], v[3]]);
-                            rwnd = u32::from_be_bytes([v[4], v[5], v[6], v[7]]) as u64;
-                            cum_acked = Some(match cum_acked { Some(old) if !tsn_gt(cum, old) => old, _ => cum });
+                            let arw = u32::from_be_bytes([v[4], v[5], v[6], v[7]]) as u64;
+                            let ng = u16::from_be_bytes([v[8], v[9]]) as usize;
+                            let gaps: Vec<(u32, u32)> = (0..ng).filter(|i| v.len() >= 16 + 4 * i).map(|i| (u16::from_be_bytes([v[12 + 4 * i], v[13 + 4 * i]]) as u32, u16::from_be_bytes([v[14 + 4 * i], v[15 + 4 * i]]) as u32)).collect();
+                            if !matches!(best.0, Some(old) if tsn_gt(old, cum)) { code_rwnd = arw; }
+                            let newer = match best.0 { Some(old) => !tsn_gt(old, cum), None => true };
+                            if newer {
+                                // at an unchanged cumulative TSN the receiver's window can only have shrunk
+                                best = (Some(cum), if best.0 == Some(cum) { best.1.min(arw) } else { arw });
+                                unacked.retain(|e| tsn_gt(e.0, cum));
+                            }
+                            for e in unacked.iter_mut() { let off = e.0.wrapping_sub(cum); if gaps.iter().any(|g| g.0 <= off && off <= g.1) { e.2 = true; } }
+                            if newer { after_t3 = after_t3 && !unacked.is_empty(); }
                         }
                     }
                 }
             }
             hook::Ev::Tx(p) => {
                 toks.push(format!("T,{}", hex(p)));
+                if idle { quiet_tx += 1; }
                 for (t, _f, v) in chunks_of(p) {
+                    let idle_now = ever_sent && unacked.is_empty() && queued.is_empty();
+                    let is_new_data = t == 0 && v.len() >= 12 && next == Some(u32::from_be_bytes([v[0], v[1], v[2], v[3]]));
+                    let free_sack = t == 3 && !owes_sack;
+                    if free_sack { free_sacks += 1; }
+                    if idle_now && ((t == 0 && !is_new_data) || t == 192 || t == 1 || t == 10 || (free_sack && free_sacks > 1)) {
+                        if viol.is_none() { viol = Some(format!("not-quiescent:{t}@{idx}")); }
+                        fails.push((format!("quiescence:{}-after-everything-acknowledged", ct_name(t)), format!("{who}: datagram #{idx} of its trace carries a {} chunk although all its data is acknowledged and nothing is queued", ct_name(t))));
+                    }
                     if (t == 1 || t == 2) && v.len() >= 16 { next = Some(u32::from_be_bytes([v[12], v[13], v[14], v[15]])); }
+                    if t == 3 { owes_sack = false; }
                     if t == 0 && v.len() >= 12 {
                         let tsn = u32::from_be_bytes([v[0], v[1], v[2], v[3]]);
-                        if let Some(nx) = next { if tsn == nx { next = Some(nx.wrapping_add(1)); } else { rexmits += 1; } }
-                        if let Some(ca) = cum_acked { if !tsn_gt(tsn, ca) && viol.is_none() {
-                            viol = Some(format!("rexmit-after-sack:{tsn}@{idx}"));
-                            let wrap = tsn > 0xFFFF_0000 || ca > 0xFFFF_0000 || next.map(|n| n < 0x1_0000).unwrap_or(false);
-                            fails.push((if wrap { "rexmit:after-covering-sack:at-tsn-wrap".to_string() } else { "rexmit:after-covering-sack".to_string() },
-                                format!("{}: TSN {tsn} sent again after a SACK with cumulative TSN {ca} was processed", ["A", "B"][side])));
+                        let wire = (4 + v.len() + (4 - (4 + v.len()) % 4) % 4) as u64;
+                        let is_new = next == Some(tsn);
+                        if is_new {
+                            next = Some(tsn.wrapping_add(1)); ever_sent = true; unacked.push((tsn, wire, false));
+                            let outstanding: u64 = unacked.iter().filter(|e| !e.2).map(|e| e.1).sum();
+                            let over = outstanding.saturating_sub(best.1);
+                            max_over = max_over.max(over);
+                            if over > 1200 {
+                                // causes the code is known for: flight restarted by T3; an older SACK with the same cumulative TSN
+                                // (indistinguishable from a window update for the sender) taken at face value
+                                let cause = if after_t3 { ":after-t3-restarted-flight-size" } else if code_rwnd > best.1 { ":older-sack-with-same-cumulative-tsn" } else { "" };
+                                if viol.is_none() { viol = Some(format!("window-overshoot{}:{outstanding}>{}@{idx}", if after_t3 { "-after-t3" } else if code_rwnd > best.1 { "-stale-sack" } else { "" }, best.1)); }
+                                fails.push((format!("window:new-data-beyond-advertised-window-plus-one-packet{cause}"),
+                                    format!("{who}: {outstanding} unacknowledged bytes on the wire after new TSN {tsn}, newest advertised window {}", best.1)));
+                            }
+                        } else { rexmits += 1; }
+                        if let Some(ca) = best.0 { if !tsn_gt(tsn, ca) {
+                            if viol.is_none() { viol = Some(format!("rexmit-after-sack:{tsn}@{idx}")); }
+                            fails.push(("rexmit:after-covering-sack".to_string(), format!("{who}: TSN {tsn} sent again after a SACK with cumulative TSN {ca} was processed")));
                         } }
                     }
                 }
             }
         }
     }
-    let out = format!("{} | {} rex={rexmits} q={}", if outs.is_empty() { "-".to_string() } else { outs.join(" ") },
+    fails.dedup_by(|a, b| a.0 == b.0);
+    let out = format!("{} | {} rex={rexmits} q={} quiet={quiet_tx} over={max_over}", if outs.is_empty() { "-".to_string() } else { outs.join(" ") },
         viol.map(|v| format!("viol:{v}")).unwrap_or("ok".into()), o.snaps[side].outbound_queue.len());
     (toks.join(" "), out, fails)
 }
@@ -311,7 +361,7 @@ fn c13_case(rwnd: usize, burst: usize, cwnd: usize, rto: u64, sizes: &[usize], f
     let mut msgs: Vec<Msg> = sizes.iter().enumerate().map(|(i, l)| Msg { side: 0, chan: 1, data: payload(0, 1, i, *l), phase: 0, task: 0 }).collect();
     msgs.push(Msg { side: 1, chan: 1, data: payload(1, 1, 0, 700), phase: 0, task: 0 });
     Case { cfg, chans: [vec![ChanSpec::reliable(1)], vec![ChanSpec::reliable(1)]], msgs, faults,
-        deadline: Duration::from_secs(15), settle: Duration::from_millis(rto * 5), closes: vec![] }
+        deadline: Duration::from_secs(15), settle: Duration::from_millis(rto * 5), closes: vec![], end: End::None }
 }
 
 fn cases(args: &Args, rng: &mut Rng) -> Vec<Case> {
@@ -341,6 +391,11 @@ fn cases(args: &Args, rng: &mut Rng) -> Vec<Case> {
     // TSN wrap inside the sent queue with only the first chunk arriving (the late-SACK filter history)
     v.push(c13_case(131_072, 0, 256 * 1024, 120, &[4500], faults_parse("A.TSN.1.dropn1+A.TSN.2.dropn1+A.TSN.3.dropn1"), Some(0xFFFF_FFFE)));
     v.push(c13_case(131_072, 0, 256 * 1024, 120, &[9000], faults_parse("A.TSN.2.dropn2+A.TSN.3.dropn1+A.TSN.5.dropn1"), Some(0xFFFF_FFFD)));
+    // every SACK of the first flight lost: T3 restarts the flight-size count while nothing is acknowledged (known finding)
+    v.push(c13_case(8192, 16, 256 * 1024, 120, &[30_000], faults_parse("B.SACK.1.drop+B.SACK.2.drop+B.SACK.3.drop+B.SACK.4.drop+B.SACK.5.drop+B.SACK.6.drop+B.SACK.7.drop"), None));
+    // SACKs that arrive after newer ones: with a smaller cumulative TSN (ignored since 5cfc04a) and with the same one (known finding)
+    v.push(c13_case(4096, 16, 256 * 1024, 200, &[30_000], faults_parse("A.TSN.5.dropn3+B.SACK.1.late4"), None));
+    v.push(c13_case(4096, 16, 256 * 1024, 200, &[30_000], faults_parse("A.TSN.1.dropn3+B.SACK.1.late3"), None));
     let nrand = if args.tier_thorough { 200 } else { 10 };
     for _ in 0..nrand {
         let nf = rng.range(1, 4) as usize;
